@@ -13,6 +13,7 @@ pub fn props_of(case: &Value) -> Vec<&'static str> {
         "cmp" => vec!["C14"],
         "append" => vec!["C16", "C15"],
         "filter" => vec!["C17", "C15"],
+        "print" => vec!["C04"],
         _ => vec!["C17"],
     }
 }
@@ -29,6 +30,15 @@ pub fn replay(case: &Value) -> Vec<Obs> {
     let exp_status = case["status"].as_str().unwrap();
     if exp_status == "out" { return vec![Obs::ok("SKIP", "out")]; }
     let exp_res: Vec<Tm> = case["res"].as_array().unwrap().iter().map(tm_from_json).collect();
+    // the format-string table of the specification must describe the real strings
+    if slice == "print" {
+        if let Some(fm) = case["fmt"].as_object() {
+            for (k, v) in fm {
+                let pieces: Vec<&str> = v.as_array().unwrap().iter().map(|x| x.as_str().unwrap()).collect();
+                if k.split("%s").collect::<Vec<_>>() != pieces { return vec![Obs::bad("TOOL", "fmt-table", k.clone())]; }
+            }
+        }
+    }
     let nvars = prior_t.len();
     let names = ["$X", "$Y", "$Z", "$O", "$V"];
     let mut watch: Vec<Tm> = (1..=nvars).map(|i| Tm::Var(i, names[i - 1].to_string())).collect();
@@ -41,9 +51,10 @@ pub fn replay(case: &Value) -> Vec<Obs> {
     let kb = KnowledgeBase::new();
     set_var_id(nvars + 5);
     let base = make_base_node(Rc::new(Goal::ComplexGoal(Unifiable::SComplex(vec![Unifiable::Atom("go".into())]))), &kb);
-    let goal = Goal::BuiltInGoal(BuiltInPredicate::new(f.clone(), Some(args)));
+    let goal = Goal::BuiltInGoal(BuiltInPredicate::new(f.clone(), if args.is_empty() { None } else { Some(args) }));
     let sn = make_solution_node(Rc::new(goal), &kb, Rc::clone(&prior), base);
 
+    crate::capture::take();
     let first = catch_unwind(AssertUnwindSafe(|| next_solution(Rc::clone(&sn)).map(|s| (*s).clone())));
     let (status, ss, note): (String, SubstitutionSet, String) = match first {
         Ok(Some(s)) => ("ok".into(), s, String::new()),
@@ -51,11 +62,20 @@ pub fn replay(case: &Value) -> Vec<Obs> {
         Err(e) => ("panic".into(), (*prior).clone(),
                    e.downcast_ref::<String>().cloned().or_else(|| e.downcast_ref::<&str>().map(|s| s.to_string())).unwrap_or_default()),
     };
+    let out_text = crate::capture::take();
     let res = canon(&watch.iter().map(|v| resolve(v, &ss)).collect::<Vec<_>>());
     let malformed = res.iter().any(|t| contains_bad(t, "list"));
     let agrees = status == exp_status && res == exp_res;
     // at most once
     let again = catch_unwind(AssertUnwindSafe(|| next_solution(Rc::clone(&sn)).is_some())).unwrap_or(true);
+    let out_again = crate::capture::take();
+    if slice == "print" {
+        // C04: the text written is exactly the model's, once: a second request writes nothing and fails
+        let exp_out = case["out"].as_str().unwrap_or("");
+        let what2 = format!("{} :: model {} {:?} / impl {} {:?}{}", what, exp_status, exp_out, status, out_text,
+                            if again || !out_again.is_empty() { format!(" ; a second request: success={} text={:?}", again, out_again) } else { String::new() });
+        return if agrees && out_text == exp_out && !again && out_again.is_empty() { vec![Obs::ok("C04", &f)] } else { vec![Obs::bad("C04", &f, what2)] };
+    }
     let detail = format!("{} :: model {} [{}] / impl {} [{}] {}{}", what, exp_status, show_vec(&exp_res), status, show_vec(&res), note,
                          if again { " ; a second request succeeded again" } else { "" });
     let owner: &'static str = match slice { "cmp" => "C14", "append" => "C16", _ => "C17" };
